@@ -180,7 +180,7 @@ def hermitian_mpo(rng, qd, L, Dmax, entries='complex', order='random'):
 
 # ---------------------------------------------------------------- random layered operator graphs
 
-def rand_layered_graph(rng, qd, L, width=3, q0=0, density=0.7, nid_offset=0, eid_offset=0):
+def rand_layered_graph(rng, qd, L, width=3, q0=0, density=0.7, nid_offset=0, eid_offset=0, q1=None):
     """random layered OpGraph with node charges, edges carrying operators whose physical charge shift equals the
     charge difference of the end nodes; returns (graph, opmap)"""
     qd = [int(x) for x in qd]
@@ -200,7 +200,8 @@ def rand_layered_graph(rng, qd, L, width=3, q0=0, density=0.7, nid_offset=0, eid
             opmap[oid] = M
             byshift.setdefault(s, []).append(oid)
             oid += 1
-    q1 = pick_sector(rng, qd, L, mpo=True, q0=q0)[1]
+    if q1 is None:
+        q1 = pick_sector(rng, qd, L, mpo=True, q0=q0)[1]
     left, valid = reach_sets(shifts, L, q0, q1)
     layers = []
     nid = nid_offset
